@@ -260,8 +260,54 @@ def pass_case(ctx, rng, k):
     ctx.case((fmt, start, interp, tle), nontrivial=True, branch="pass/%s/%s/%s/%s" % (fmt, "interp" if interp else "ties", tle, where))
 
 
+def long_pass_case(ctx, rng):
+    """One LONG full-resolution pass (8193 lines, interpolated coordinates, no usable element set): the sun angles of sampled
+    pixels of lines all along the pass - the very last ones included - agree with the sun's position at that time and place."""
+    import io
+    import warnings
+    from . import timesgen
+    fmt, n = "klmLac", 8193
+    start = ydm_to_ms(2004, 100, 36000000)
+    tp = timesgen.TimePass(fmt, list(range(1, n + 1)), start)
+    b = tp.build(ctx, rng)
+    ii, cc = np.arange(n, dtype=float)[:, None], np.arange(51, dtype=float)[None, :]
+    b.lons = -100.0 + 0.004 * ii + 0.25 * cc
+    b.lats = 50.0 * np.sin(ii / n * np.pi * 1.6) + 0.01 * cc
+    data = b.tobytes()
+    r = filegen.reader_class(fmt)(tle_dir=filegen.tle_dir(ctx), tle_name="TLE_%(satname)s.txt", interpolate_coords=True)
+    r.read(b.dsname, fileobj=io.BytesIO(data))
+    del data
+    payload = {"fmt": fmt, "n": n, "stream": "long-pass"}
+    try:
+        with warnings.catch_warnings():
+            warnings.simplefilter("ignore")
+            sat_azi, sat_zen, sun_azi, sun_zen, rel_azi = [np.asarray(a) for a in r.get_angles()]
+            L, B = [np.asarray(a) for a in r.get_lonlat()]
+            times = np.asarray(r.get_times()).astype("datetime64[ms]").astype(np.int64)
+    except Exception as e:      # noqa
+        ctx.violation("%s, %d lines: get_angles raised %r" % (fmt, n, e), payload, cls="angles-raise-long:" + type(e).__name__)
+        return
+    if sun_zen.shape != (n, 2048):
+        ctx.violation("%s, %d lines: angle arrays have shape %s" % (fmt, n, sun_zen.shape), payload, cls="angles-shape-long")
+        return
+    worst = 0.0
+    for i in sorted(set([0, 1, 1023, 1024, 2047, 2048, 4095, 4096, 8190, 8191, 8192] + rng.sample(range(n), 8))):
+        for j in (0, 700, 1024, 2047):
+            z, az = sun_pos(int(times[i]), float(L[i, j]), float(B[i, j]))
+            dz = abs(float(sun_zen[i, j]) - z)
+            da = circ(float(sun_azi[i, j]), az) if 1.0 < z < 179.0 else 0.0
+            worst = max(worst, dz, da if not math.isnan(da) else 9e9)
+            if not (dz <= 0.1 and da <= 0.1):
+                ctx.violation("%s pass of %d lines: sun angles of line index %d, pixel %d are (zenith %.3f, azimuth %.3f), the sun stands at "
+                              "(%.3f, %.3f) there" % (fmt, n, i, j, sun_zen[i, j], sun_azi[i, j], z, az), payload, cls="sun-long")
+                return
+    ctx.case((fmt, "long", n), nontrivial=True, branch="long-pass")
+
+
 def run(ctx):
     fold_cases(ctx)
+    if ctx.thorough or getattr(ctx, "escalated", False):
+        long_pass_case(ctx, ctx.rng)
     for k in range(ctx.n(48, 2400)):
         pass_case(ctx, ctx.rng, k)
     ctx.sample({"sun_max_dev_deg": ctx.extra.get("sun_max_dev_deg"), "sat_zenith_max_dev_deg": ctx.extra.get("sat_zenith_max_dev_deg")})
